@@ -157,6 +157,10 @@ func (f *faulter) alter(name string, body []byte) [][]byte {
 			}
 			f.applied = true
 			return [][]byte{b}
+		case "garbledata":
+			// a data message whose CBOR framing is broken (not a byte string / truncated head)
+			f.applied = true
+			return [][]byte{[][]byte{{0x18}, {0xa0}, {0x5a, 0x00, 0x01}, {0x61, 0x78}, {0xff}}[a%5]}
 		case "truncdata":
 			if hdr, n, ok := bstrPayload(body); ok && n > 0 && hdr+n == len(body) {
 				f.applied = true
@@ -475,6 +479,197 @@ func eval(c fcase) ev.Result {
 	return res
 }
 
+// ---- several transfers in one TO2 session ------------------------------------------------
+
+type seqItem struct {
+	Size     int    `json:"size"`
+	Seed     int    `json:"seed"`
+	Chunk    int    `json:"chunk"`
+	Fault    string `json:"fault"`
+	FaultArg int    `json:"faultarg"`
+}
+
+type seqCase struct {
+	Cfg    int       `json:"cfg"`
+	DevMTU int       `json:"devmtu"`
+	Items  []seqItem `json:"items"`
+}
+
+// faults after which the receiver answers at once (the others make it wait for more data)
+var seqFaults = []string{"none", "none", "flipdata", "digest", "garbledata", "dup", "length-"}
+
+// seqProxy hands every transfer of the session (they all go to the one device module
+// instance, as in a real device) to its own faulter; a new transfer starts with "name".
+type seqProxy struct {
+	inner serviceinfo.DeviceModule
+	fs    []*faulter
+	mu    sync.Mutex
+	cur   int
+}
+
+func (p *seqProxy) Transition(a bool) error { return p.inner.Transition(a) }
+func (p *seqProxy) Receive(ctx context.Context, name string, body io.Reader, respond func(string) io.Writer, yield func()) error {
+	b, err := io.ReadAll(body)
+	if err != nil {
+		return err
+	}
+	p.mu.Lock()
+	if name == "name" {
+		p.cur++
+	}
+	f := p.fs[min(max(p.cur, 0), len(p.fs)-1)]
+	p.mu.Unlock()
+	for _, x := range f.alter(name, b) {
+		if err := p.inner.Receive(ctx, name, bytes.NewReader(x), respond, yield); err != nil {
+			return err
+		}
+	}
+	return nil
+}
+func (p *seqProxy) Yield(ctx context.Context, respond func(string) io.Writer, yield func()) error {
+	return p.inner.Yield(ctx, respond, yield)
+}
+
+func genSeq(t *rapid.T) seqCase {
+	c := seqCase{Cfg: rapid.SampledFrom([]int{0, 0, 1}).Draw(t, "cfg"), DevMTU: rapid.SampledFrom([]int{512, 1300, 1300, 4096}).Draw(t, "devmtu")}
+	n := rapid.IntRange(2, 3).Draw(t, "n")
+	for i := 0; i < n; i++ {
+		it := seqItem{Seed: rapid.IntRange(0, 1<<20).Draw(t, "seed"), Chunk: rapid.SampledFrom([]int{0, 0, 100, 1014, 300}).Draw(t, "chunk"), FaultArg: rapid.IntRange(0, 1<<12).Draw(t, "faultarg")}
+		unit := 1014
+		if it.Chunk > 0 {
+			unit = it.Chunk
+		}
+		unit = min(unit, c.DevMTU-40)
+		it.Size = max(1, rapid.IntRange(1, 4).Draw(t, "k")*unit+rapid.IntRange(-unit+1, 5).Draw(t, "d"))
+		it.Fault = rapid.SampledFrom(seqFaults).Draw(t, "fault")
+		c.Items = append(c.Items, it)
+	}
+	return c
+}
+
+// evalSeq: every clean transfer of the session arrives identical whatever happened to the
+// transfers before it; a corrupted one leaves its identical file or nothing.
+func evalSeq(c seqCase) ev.Result {
+	if len(c.Items) == 0 {
+		return ev.Result{Skip: true}
+	}
+	cfg := cfgs[((c.Cfg%len(cfgs))+len(cfgs))%len(cfgs)]
+	c.DevMTU = min(max(c.DevMTU, 400), 65535)
+	ctx, cancel := context.WithTimeout(context.Background(), 60*time.Second)
+	defer cancel()
+	scratch := deploy.ScratchDir()
+	defer os.RemoveAll(scratch)
+	dest, tmp := filepath.Join(scratch, "dest"), filepath.Join(scratch, "tmp")
+	_ = os.MkdirAll(dest, 0o755)
+	_ = os.MkdirAll(tmp, 0o755)
+	mkTemp := func() (*os.File, error) { return os.CreateTemp(tmp, "t_*") }
+	var fs []*faulter
+	var datas [][]byte
+	var mods []deploy.NamedModule
+	total := 0
+	for i := range c.Items {
+		it := &c.Items[i]
+		it.Size = min(max(it.Size, 1), 8000)
+		if it.Chunk < 0 {
+			it.Chunk = 0
+		}
+		eff := 1014
+		if it.Chunk > 0 {
+			eff = it.Chunk
+		}
+		eff = max(1, min(eff, c.DevMTU-40))
+		if it.Size > 60*eff {
+			it.Size = 60 * eff
+		}
+		msgs := (it.Size + eff - 1) / eff
+		total += msgs
+		fa := it.FaultArg
+		if fa < 0 {
+			fa = -fa
+		}
+		fs = append(fs, &faulter{kind: it.Fault, arg: it.FaultArg, target: (fa / 3) % max(1, msgs)})
+		d := content(it.Seed+i, it.Size)
+		datas = append(datas, d)
+		mods = append(mods, deploy.NamedModule{Name: "fdo.download", Mod: &fsim.DownloadContents[*bytes.Reader]{Name: fmt.Sprintf("s%d.bin", i), Contents: bytes.NewReader(d), MustDownload: false, ChunkSize: it.Chunk}})
+	}
+	svc := deploy.NewMemService("aio", deploy.KeyOwner1)
+	svc.AutoExtendTo = deploy.OwnerPublic(cfg, deploy.KeyOwner1)
+	dev := deploy.NewDevice(cfg, deploy.KeyDevice)
+	dev.MTU = uint16(c.DevMTU)
+	px := &seqProxy{fs: fs, cur: -1, inner: &fsim.Download{CreateTemp: mkTemp, NameToPath: func(n string) string { return filepath.Join(dest, n) }}}
+	dev.Modules = map[string]serviceinfo.DeviceModule{"fdo.download": px}
+	svc.Modules.Factory = func(context.Context) []deploy.NamedModule { return mods }
+	if err := dev.DI(ctx, deploy.NewLink(svc)); err != nil {
+		return ev.Failf("setup", "DI: %v", err)
+	}
+	link := deploy.NewLink(svc)
+	n68, capped := 0, false
+	roundCap := total*3 + 80
+	link.OnRequest = func(ex *deploy.Exchange) *deploy.Action {
+		if ex.ReqType == 68 {
+			n68++
+			if n68 > roundCap {
+				capped = true
+				cancel()
+			}
+		}
+		return nil
+	}
+	var runErr error
+	if !ev.WithTimeout(50*time.Second, func() { _, runErr = dev.TO2(ctx, link, nil) }) {
+		cancel()
+		return ev.Failf("hang:to2", "TO2 with %d downloads did not return within 50 s", len(c.Items))
+	}
+	tag := fmt.Sprintf("devMTU=%d transfers=%+v", c.DevMTU, c.Items)
+	if os.Getenv("VERIF_DEBUG") != "" {
+		fmt.Fprintf(os.Stderr, "DEBUG %s: runErr=%v capped=%v n68=%d\n", tag, runErr, capped, n68)
+	}
+	anyFault, faultBeforeClean := false, false
+	for i := range c.Items {
+		if fs[i].applied {
+			anyFault = true
+		}
+	}
+	// A session in which something was corrupted in transit may be aborted by either side
+	// (what must hold then is atomicity); a session that completes must have delivered
+	// every clean transfer.
+	aborted := runErr != nil && anyFault
+	seenFault := false
+	for i, it := range c.Items {
+		b, err := os.ReadFile(filepath.Join(dest, fmt.Sprintf("s%d.bin", i)))
+		exists := err == nil
+		if fs[i].applied {
+			seenFault = true
+			if exists && !bytes.Equal(b, datas[i]) {
+				return ev.Failf("seq-file-despite-"+it.Fault, "%s: transfer %d was corrupted in transit (%s), yet a differing file of %d bytes exists (source %d)", tag, i, it.Fault, len(b), len(datas[i]))
+			}
+			continue
+		}
+		if seenFault {
+			faultBeforeClean = true
+		}
+		if exists && !bytes.Equal(b, datas[i]) {
+			return ev.Failf("seq-corrupt-file", "%s: clean transfer %d arrived with %d bytes differing from its source (%d bytes); earlier corrupted transfer: %v", tag, i, len(b), len(datas[i]), seenFault)
+		}
+		if !exists && !aborted {
+			if capped {
+				return ev.Failf("seq-no-termination", "%s: the session did not finish within %d DeviceServiceInfo messages (clean transfer %d missing; TO2: %v)", tag, roundCap, i, runErr)
+			}
+			return ev.Failf("seq-missing-file", "%s: clean transfer %d did not arrive although the session completed (earlier corrupted transfer: %v; TO2: %v)", tag, i, seenFault, runErr)
+		}
+	}
+	entries, _ := os.ReadDir(dest)
+	if len(entries) > len(c.Items) {
+		return ev.Failf("seq-extra-files", "%s: destination holds %d files for %d transfers", tag, len(entries), len(c.Items))
+	}
+	if runErr != nil && !anyFault {
+		return ev.Failf("seq-failed:"+normErr(runErr), "%s: a session without faults failed: %v", tag, runErr)
+	}
+	res := ev.OK(fmt.Sprintf("seq/n=%d/fault-before-clean=%v/aborted=%v", len(c.Items), faultBeforeClean, aborted))
+	res.NonTrivial = true
+	return res
+}
+
 func genCase(t *rapid.T) fcase {
 	c := fcase{Mod: rapid.SampledFrom([]string{"download", "download", "upload", "upload", "wget"}).Draw(t, "mod"), Seed: rapid.IntRange(0, 1<<20).Draw(t, "seed"),
 		NameLen: rapid.SampledFrom([]int{1, 8, 8, 30, 60}).Draw(t, "namelen"), Cfg: rapid.SampledFrom([]int{0, 0, 0, 1}).Draw(t, "cfg"), FaultArg: rapid.IntRange(0, 1<<16).Draw(t, "faultarg"), Rename: rapid.Bool().Draw(t, "rename")}
@@ -590,4 +785,7 @@ func TestC17(t *testing.T) {
 	r.SetRule("transfers", "generated transfers through a complete TO2 (real device role and owner responders, real fsim modules on both sides, HTTP transport, in-memory state): module ∈ {download, upload, wget (in-process HTTP round tripper)} × file size 1..200000 (dense around multiples of the effective chunk ±12) × random content × download chunk size {0, -1, 1..65535} × device MTU 64..65535 × owner MTU 256..65535 × name length × fault ∈ {none, flip a data bit, shorten a chunk, alter the digest, announced length up/down, drop / duplicate / reorder a data message; wget: served bytes flipped / shorter / longer / empty, read error, HTTP status, digest} injected inside the tunnel by a proxy around the real module. Oracle: fault applied ⇒ TO2 does not succeed and the destination directory stays empty; no fault ⇒ at most one file, it has the announced name and exactly the source bytes, and where the device MTU leaves room for the owner's announcement (download/wget ≥ 256+2·namelen, upload ≥ 128+2·namelen) the transfer succeeds. Non-trivial: multi-message files or an applied fault.")
 	ev.Rapid(r, "transfers", ev.N{Quick: 2500, Thorough: 120000}, genCase, eval)
 	ev.CheckWitness(r, "transfers", eval)
+
+	r.SetRule("sequences", "2..3 downloads (optional: MustDownload=false) in ONE TO2 session, all handled by the one fdo.download device module instance; each transfer has its own size (around multiples of the chunk), chunk size and fault ∈ {none, flip a data bit, alter the digest, data message with broken CBOR framing, data message delivered twice, announced length too small} injected in the tunnel. Oracle: every transfer without a fault arrives bit-identical under its own name whatever happened to earlier transfers; a corrupted transfer leaves its identical file or nothing; no extra files; a session in which nothing was corrupted succeeds, one in which something was corrupted may be aborted by either side (then only atomicity is required) but if it completes every clean transfer must be there. Non-trivial: all; class says whether a clean transfer followed a corrupted one.")
+	ev.Rapid(r, "sequences", ev.N{Quick: 700, Thorough: 30000}, genSeq, evalSeq)
 }
